@@ -384,6 +384,11 @@ unsafe impl Format for WTF8 {
             let Some(codept) = futf::classify(buf, i) else {
                 return false;
             };
+            // `classify` scans backwards from a continuation byte: a character that does not
+            // start at `i` means `i` sits on a stray continuation byte.
+            if codept.rewind != 0 {
+                return false;
+            }
             if !wtf8_meaningful(codept.meaning) {
                 return false;
             }
